@@ -15,6 +15,16 @@ claim("C09",
   "Trusted: Coq kernel+vm_compute; gen_tables.py translator; CPython str/re semantics; the hand-written model's regex semantics (validated by correspondence only); scope-level collision logic is checked by oracle, not proved.",
   "Coq proof (induction + table reflection) + in-Coq differential correspondence", "4/C09")
 
+claim("C19",
+  "Coq theorems on the file-tree state machine Fs.v (model of Project.build): no_overwrite_untouched; build_postcondition (after one generation every generated path holds fresh content, "
+  "nothing else remains under models/ and api/, every other path is untouched); overwrite_converges and user_files_untouched for EVERY history of generations and user writes (induction over histories, "
+  "no length bound); writes_confined + derived_component_safe/derived_module_safe/project_name_chars (every path component derived from any document string through PythonIdentifier/kebab_case "
+  "is non-empty, not a dot segment and free of / \\ NUL . quotes: Unicode table facts re-proved on regenerated tables). The model is tied to the code by comparing, after every step of random "
+  "histories x metadata flavours, the real directory tree with Fs.run applied to the module/tag names the parser produced (evaluated inside Coq); an oracle compares bytes with a fresh generation and "
+  "checks sentinel files around the output directory for hostile titles/tags/names.",
+  "Trusted: Coq kernel+vm_compute; OS filesystem semantics (pathlib/shutil) are not modelled; the model abstracts file contents to (generation id | user tag); user files inside models/ and api/ are deleted by design (rmtree) and the theorem says so; project_name_override/package_name_override are configuration and used raw.",
+  "Coq proof (invariant over histories) + in-Coq differential correspondence on directory histories", "4/C19")
+
 def main():
     checks = []
     for pid in ALL:
